@@ -76,7 +76,7 @@ func genDirEntries(r *rng.R, cfg *scfg) []dent {
 		case k == 17:
 			e = dent{name: ".tmp", content: rec(r.Pick(0, 2))}
 		case k == 18: // invalid user names with valid extensions
-			e = dent{name: []string{"_x", ".hidden", "-a", "@b", "", "a b", "a,b", "ü"}[r.Intn(8)] + []string{".user", ".admin"}[r.Intn(2)], content: rec(0)}
+			e = dent{name: []string{"_x", ".hidden", "-a", "@b", "", "a b", "a,b", "ü", "bo\u017fs", "\u212aarl", "\u0661", "\uff41b"}[r.Intn(12)] + []string{".user", ".admin"}[r.Intn(2)], content: rec(0)}
 		case k == 19:
 			e = dent{name: u + ".user.admin", content: rec(0)}
 		case k == 20:
